@@ -129,7 +129,7 @@ pub fn check_set(ctx: &Ctx, fac: &FacChoice, input: &[(Key, [f32; 3])], r: &mut 
             return;
         }
         (Out::Err(v, m), Expect::Ok(_)) => {
-            t.violation("C07.usable_set_rejected", format!("a set with a grid supply factor for every carrier, including ELECTRICIDAD, is rejected: {v}: {m}"), || wit(json!({})));
+            t.violation("C07.usable_set_rejected", format!("a set in which every carrier it mentions has its grid supply factor is rejected: {v}: {m}"), || wit(json!({})));
             return;
         }
         (Out::Ok(f), Expect::Ok(_)) => f,
